@@ -26,35 +26,11 @@ class TimelineProcess(Process):
         super(TimelineProcess, self).__init__(parameters)
 
     def initialize_timeline(self):
-        # sort the timeline
-        timeline = []
-        for new_event in self.parameters['timeline']:
-            if not timeline:
-                timeline.append(new_event)
-                continue
-
-            new_time = new_event[0]
-            for event_index, event in enumerate(timeline):
-                time = event[0]
-                if new_time == time:
-                    # merge events
-                    timeline[event_index][1].update(new_event[1])
-                    break
-                elif event_index == len(timeline) - 1:
-                    # append as last event
-                    timeline.append(new_event)
-                    break
-                elif new_time < time:
-                    # next
-                    continue
-                elif new_time > time:
-                    next_time = timeline[event_index + 1][0]
-                    if new_time < next_time:
-                        # add event into middle of timeline
-                        timeline = timeline[:event_index + 1] + [new_event] + timeline[event_index + 2:]
-                        break
-
-        self.timeline = timeline
+        # sort the timeline, merging the events that share a time
+        merged = {}
+        for time, change in self.parameters['timeline']:
+            merged.setdefault(time, {}).update(change)
+        self.timeline = sorted(merged.items(), key=lambda event: event[0])
 
         # get ports
         self.timeline_ports = {'global': ['time']}
@@ -82,17 +58,16 @@ class TimelineProcess(Process):
     def next_update(self, timestep, states):
         time = states['global']['time']
         update = {'global': {'time': timestep}}
-        for (t, change_dict) in self.timeline:
-            if time >= t:
-                for path_to_variable, value in change_dict.items():
-                    # make embedded dict with keys listed in path_to_variable
-                    update_at_path = {}
-                    update_value = {
-                        '_value': value,
-                        '_updater': 'set'}
-                    nested_set(update_at_path, path_to_variable, update_value)
-                    update = deep_merge_combine_lists(update, update_at_path)
-
-                self.timeline.pop(0)
-                log.info('timeline update: {}'.format(update))
+        # apply every event that is due, earliest first
+        while self.timeline and time >= self.timeline[0][0]:
+            _, change_dict = self.timeline.pop(0)
+            for path_to_variable, value in change_dict.items():
+                # make embedded dict with keys listed in path_to_variable
+                update_at_path = {}
+                update_value = {
+                    '_value': value,
+                    '_updater': 'set'}
+                nested_set(update_at_path, path_to_variable, update_value)
+                update = deep_merge_combine_lists(update, update_at_path)
+            log.info('timeline update: {}'.format(update))
         return update
